@@ -6,6 +6,7 @@ from __future__ import annotations
 import ast
 
 from ..core import AnalysisError, Check, Scope, norm, strip_docstring, walk_no_nested
+from ..interp import Sym, SymInterp
 from ..variants import Variant
 
 MOD = "label_map.py"
@@ -83,13 +84,15 @@ class C05(Check):
         "L4": "repacked stoichiometry changes each substrate occurrence by exactly -1 and each product occurrence by +1",
         "L6": "initial label placement addresses isotopomers by string position (position i <-> i-th character from the left, the "
               "convention of the pattern generator and of the map reader); addressing by bit significance (1 << i) mirrors the positions",
+        "L9": "the concatenated labelling pattern is cut into consecutive windows, compound k getting exactly its own number of positions "
+              "(window arithmetic for three compounds, symbolic label counts)",
         "L8": "totals are preserved at the start: every isotopomer of a labelled compound starts at 0 and the whole initial amount goes to "
               "exactly one of them (the unlabelled one when no label is requested); unlabelled compounds keep their value",
         "L7": "substrate / product occurrence lists follow the declared order of the stoichiometry (no sorted/set/reversed): map "
               "positions refer to atoms in that order",
         "L5": "positions beyond the substrates enter labelled: external labels are '1' x (product labels - substrate labels)",
     }
-    floors = {"L1": 1, "L2": 3, "L3": 1, "L4": 2, "L5": 1, "L6": 1, "L7": 2, "L8": 2}
+    floors = {"L1": 1, "L2": 3, "L3": 1, "L4": 2, "L5": 1, "L6": 1, "L7": 2, "L8": 2, "L9": 1}
     decided = [
         "one isotopomer reaction per substrate labelling pattern, none skipped",
         "a map shorter than the substrates' atoms is rejected before any reaction is created",
@@ -158,8 +161,37 @@ class C05(Check):
         else:
             self.violated("L5", MOD, q, "external-appended-before-mapping", loop, "external label positions are not appended before mapping: maps naming them fail or read substrate atoms")
         g = mod.func("_get_external_labels")
-        t = norm(g)
-        if "n_external_labels = total_product_labels - total_substrate_labels" in t and "['1'] * n_external_labels" in t:
+        ok_ext = True
+        paths = SymInterp().run_function(g, Sym()).returns
+        N = "total_product_labels - total_substrate_labels"
+        for st, _ in paths:
+            rv = [e[1] for e in st.events if e[0] == "return"]
+            rv = rv[-1] if rv else "None"
+            rv = rv.replace(f"''.join(['1'] * ({N}))", f"'1' * ({N})")
+            nonpos = any((c, p) in ((f"{N} > 0", False), (f"{N} <= 0", True), (f"{N} >= 1", False), (f"{N} < 1", True)) for c, p in st.conds)
+            if not (rv == f"'1' * ({N})" or (nonpos and rv == "''")):
+                ok_ext = False
+        # the pattern string is cut into consecutive per-compound pieces
+        sp = mod.func("_split_label_string")
+        from ..windows import partition_violation, slice_windows
+
+        try:
+            params = [a_.arg for a_ in sp.args.args]
+            windows, anchor, L = slice_windows(sp, None, params[1])
+            if len(windows) != 3 or any(norm(w[3].value) != params[0] for w in windows):
+                self.undecided_ob("L9", MOD, sp.name, "consecutive-windows", sp, "slices of the label string not recognised")
+            else:
+                bad = partition_violation(windows, L)
+                if bad:
+                    k, lo, hi, wl, wh, node = bad
+                    self.violated("L9", MOD, sp.name, "consecutive-windows", node,
+                                  f"compound {k + 1} receives label positions [{lo}:{hi}] instead of [{wl}:{wh}] (label counts l1,l2,l3)",
+                                  witness="A(2 carbons) + B(1 carbon): B's isotopomer is read from A's positions")
+                else:
+                    self.holds("L9", MOD, sp.name, "consecutive-windows", anchor, "compound k receives positions [l1+..+l(k-1) : l1+..+lk]")
+        except AnalysisError as e:
+            self.undecided_ob("L9", MOD, sp.name, "consecutive-windows", sp, str(e))
+        if paths and ok_ext:
             self.holds("L5", MOD, g.name, "external-labelled", g, "'1' x (product labels - substrate labels)")
         else:
             self.violated("L5", MOD, g.name, "external-labelled", g, "external positions do not enter labelled / wrong count")
@@ -289,6 +321,8 @@ class C05(Check):
                     "                suffix = '__' + ''.join(('1' if idx in label_pos else '0' for idx in range(self.label_variables[k])))\n                variables[f'{k}{suffix}'] = v",
                     "                variables[isos[sum((1 << idx for idx in set(label_pos)))]] = v", expect="L6|", quick=True),
             Variant("sorted-stoichiometry", MOD, "_unpack_stoichiometries", "for k, v in stoichiometries.items():", "for k, v in sorted(stoichiometries.items()):", expect="L7|", quick=True),
+            Variant("windows-overlap", MOD, "_split_label_string", "cnt += labels_per_compound[i]", "cnt += 1", expect="L9|", quick=True),
+            Variant("windows-length-of-first", MOD, "_split_label_string", "label[cnt:cnt + labels_per_compound[i]]", "label[cnt:cnt + labels_per_compound[0]]", expect="L9|"),
             Variant("default-to-fully-labelled", MOD, "LabelMapper.build_model", "variables[isos[0]] = v", "variables[isos[-1]] = v", expect="L8|"),
             Variant("map-before-external", MOD, C,
                     "        rate_suffix += external_labels\n        product_suffix = _map_substrates_to_products(rate_suffix=rate_suffix, labelmap=labelmap)",
